@@ -4,35 +4,41 @@
 #include <iterator>
 #include <algorithm>
 #include <utility>
+#include <tuple>
 #include <bluetoe/server.hpp>
 #include <bluetoe/service.hpp>
 #include <bluetoe/characteristic.hpp>
 #include "replay_util.hpp"
 
-template < template < class... > class X, bool R, bool N, class ... Fixed >
+template < template < class... > class X, bool R, bool N, bool M, class ... Fixed >
 struct with_opts {
-    using type = typename std::conditional< R,
-        typename std::conditional< N, X< Fixed..., bluetoe::requires_encryption, bluetoe::no_encryption_required >, X< Fixed..., bluetoe::requires_encryption > >::type,
-        typename std::conditional< N, X< Fixed..., bluetoe::no_encryption_required >, X< Fixed... > >::type >::type;
+    template < class ... O > using X_ = X< Fixed..., O... >;
+    using rn = typename std::conditional< R,
+        typename std::conditional< N, std::tuple< bluetoe::requires_encryption, bluetoe::no_encryption_required >, std::tuple< bluetoe::requires_encryption > >::type,
+        typename std::conditional< N, std::tuple< bluetoe::no_encryption_required >, std::tuple<> >::type >::type;
+    template < class T, bool > struct add_may;
+    template < class ... O > struct add_may< std::tuple< O... >, true >  { using type = X< Fixed..., O..., bluetoe::may_require_encryption >; };
+    template < class ... O > struct add_may< std::tuple< O... >, false > { using type = X< Fixed..., O... >; };
+    using type = typename add_may< rn, M >::type;
 };
 static bool spec( bool dflt, bool r, bool n ) { return n ? false : r ? true : dflt; }
 static int failures = 0;
 template < unsigned Bits >
 static void one() {
-    constexpr bool sr = Bits & 1, sn = Bits & 2, vr = Bits & 4, vn = Bits & 8, cr = Bits & 16, cn = Bits & 32;
-    using server_t  = typename with_opts< bluetoe::server, sr, sn >::type;
-    using service_t = typename with_opts< bluetoe::service, vr, vn, bluetoe::service_uuid16< 0x1234 > >::type;
-    using char_t    = typename with_opts< bluetoe::characteristic, cr, cn, bluetoe::characteristic_uuid16< 0x1000 > >::type;
+    constexpr bool sr = Bits & 1, sn = Bits & 2, vr = Bits & 4, vn = Bits & 8, cr = Bits & 16, cn = Bits & 32, sm = Bits & 64, vm = Bits & 128, cm = Bits & 256;
+    using server_t  = typename with_opts< bluetoe::server, sr, sn, sm >::type;
+    using service_t = typename with_opts< bluetoe::service, vr, vn, vm, bluetoe::service_uuid16< 0x1234 > >::type;
+    using char_t    = typename with_opts< bluetoe::characteristic, cr, cn, cm, bluetoe::characteristic_uuid16< 0x1000 > >::type;
     const bool got  = bluetoe::details::characteristic_requires_encryption< char_t, service_t, server_t >::value;
     const bool want = spec( spec( spec( false, sr, sn ), vr, vn ), cr, cn );
-    if ( got != want ) { ++failures; std::printf( "REPRODUCED: server(req=%d,noreq=%d) service(req=%d,noreq=%d) characteristic(req=%d,noreq=%d): requires encryption = %d, inheritance rule says %d\n", sr, sn, vr, vn, cr, cn, got, want ); }
+    if ( got != want ) { ++failures; if ( failures <= 8 ) std::printf( "REPRODUCED: server(req=%d,noreq=%d,may=%d) service(req=%d,noreq=%d,may=%d) characteristic(req=%d,noreq=%d,may=%d): requires encryption = %d, inheritance rule says %d\n", sr, sn, sm, vr, vn, vm, cr, cn, cm, got, want ); }
 }
 template < unsigned ... I > static void all( std::integer_sequence< unsigned, I... > ) { int d[] = { ( one< I >(), 0 )... }; (void)d; }
 
 int main( int argc, char** argv )
 {
     replay_args a( argc, argv );
-    all( std::make_integer_sequence< unsigned, 64 >() );
+    all( std::make_integer_sequence< unsigned, 512 >() );
     using R = bluetoe::details::attribute_access_result;
     for ( int enc = 0; enc < 2; ++enc ) for ( int ps = 0; ps < 4; ++ps ) {
         bluetoe::connection_security_attributes s( enc, static_cast< bluetoe::device_pairing_status >( ps ) );
